@@ -51,6 +51,47 @@ class TwoArgError(Exception):
         super().__init__(a, b)
 
 
+class CodedError(Exception):
+    """a validating constructor: given one string (a traceback text) it raises ValueError, not TypeError"""
+
+    def __init__(self, code):
+        self.code = int(code)
+        super().__init__(code)
+
+
+_KNOWN = {'alpha': 1, 'beta': 2}
+
+
+class LookupNameError(Exception):
+    """constructor raises KeyError for an unknown name"""
+
+    def __init__(self, name):
+        self.value = _KNOWN[name]
+        super().__init__(name)
+
+
+class Resp:
+    def __init__(self, status):
+        self.status = status
+
+    def __eq__(self, other):
+        return type(other) is Resp and other.status == self.status
+
+    def __hash__(self):
+        return hash(self.status)
+
+    def __repr__(self):
+        return f'Resp({self.status})'
+
+
+class StatusError(Exception):
+    """constructor raises AttributeError for anything without `.status`"""
+
+    def __init__(self, resp):
+        self.status = resp.status
+        super().__init__(resp)
+
+
 def make_value(vi):
     return [
         lambda: 42, lambda: 'text é', lambda: (1, 'a', 2.5), lambda: {'k': [1, 2, {'z': None}]},
@@ -79,10 +120,14 @@ def make_excx(ei):
         lambda: UnicodeDecodeError('utf-8', b'\xff', 0, 1, 'invalid start byte'),
         lambda: _json.JSONDecodeError('Expecting value', 'doc', 0),
         lambda: TwoArgError(1, 'b'),
+        lambda: CodedError(404),
+        lambda: LookupNameError('beta'),
+        lambda: StatusError(Resp(503)),
     ][ei]()
 
 
-N_EXCX = 3
+N_EXCX = 6
+_rot = [0]
 
 
 # ---- child side ---------------------------------------------------------------------------------------------------------
@@ -431,7 +476,8 @@ def scenario(rnd, flavour, kind, phase, sig, first):
     elif kind == 'raise':
         sc['ei'] = rnd.randrange(N_EXCS)
     elif kind == 'raiseX':
-        sc['ei'] = rnd.randrange(N_EXCX)
+        _rot[0] += 1
+        sc['ei'] = _rot[0] % N_EXCX      # every class of the catalogue in turn
     return sc
 
 
